@@ -85,6 +85,8 @@ func opJS(op string) (string, error) {
 		return fmt.Sprintf("(function(){var d=mkDesc('-','%s','%s','%s','%s','-');%sR+=tf(Reflect.defineProperty(a,'length',d))})();", w[2], w[3], w[4], g, vs), nil
 	case "X":
 		return fmt.Sprintf("R+=tf(Reflect.deleteProperty(a,key(%s)));", w[1]), nil
+	case "POP":
+		return "R+=tf((function(){try{a.pop();return true}catch(e){return false}})());", nil
 	case "F":
 		return "Object.freeze(a);R+='T';", nil
 	case "P":
